@@ -424,8 +424,12 @@ WriterTurn(cc, top) ==
     ELSE IF Head(cc.q) = NIL THEN [cn |-> [cc EXCEPT !.q = Tail(@)], st |-> "done", id |-> 0,
                                    dl |-> None, nid |-> 0]
     ELSE LET i == NilIdx(cc.q)
-             batch == IF i = 0 THEN cc.q ELSE SubSeq(cc.q, 1, i - 1)
-             rest == IF i = 0 THEN <<>> ELSE SubSeq(cc.q, i + 1, Len(cc.q))
+             \* at most 16 packets per payload; a sentinel met within that limit is dropped
+             withNil == i # 0 /\ i - 1 < 16
+             m == IF Len(cc.q) < 16 THEN Len(cc.q) ELSE 16
+             batch == IF withNil THEN SubSeq(cc.q, 1, i - 1) ELSE SubSeq(cc.q, 1, m)
+             rest == IF withNil THEN SubSeq(cc.q, i + 1, Len(cc.q))
+                     ELSE SubSeq(cc.q, m + 1, Len(cc.q))
              c1 == [cc EXCEPT !.q = rest]
          IN IF c1.tr = "polling"
             THEN [cn |-> Req([c1 EXCEPT !.tx = @ \o batch], nid + 1, "POST", batch, RT),
